@@ -631,6 +631,82 @@ mutual
         rw [← view_elem, skeleton_view, skeletonList_viewKids [] ks]
 end
 
+/-! ### `view` in terms of the shared `normalize` (Qx/Xml/Canon.lean) -/
+
+theorem mergeText_text (a : Str) (L : List Node) :
+    mergeText (.text a :: L) =
+      match mergeText L with
+      | .text b :: r => .text (a ++ b) :: r
+      | r => if a.isEmpty then r else .text a :: r := by
+  rw [mergeText]
+  rfl
+
+theorem mergeText_elem (n : Str) (as : List (Str × Str)) (ks : List Node) (L : List Node) :
+    mergeText (.elem n as ks :: L) = .elem n as ks :: mergeText L := by
+  simp [mergeText]
+
+theorem mergeText_text_nil (L : List Node) : mergeText (.text [] :: L) = mergeText L := by
+  rw [mergeText_text]
+  split <;> simp_all
+
+theorem mergeText_text_text (a b : Str) (L : List Node) :
+    mergeText (.text a :: .text b :: L) = mergeText (.text (a ++ b) :: L) := by
+  rw [mergeText_text a, mergeText_text b, mergeText_text (a ++ b)]
+  cases h : mergeText L with
+  | nil => by_cases hb : b = [] <;> by_cases ha : a = [] <;> simp [ha, hb]
+  | cons x r =>
+    cases x with
+    | text c => simp [List.append_assoc]
+    | elem n as ks => by_cases hb : b = [] <;> by_cases ha : a = [] <;> simp [ha, hb]
+
+theorem dropBlankList_append (a b : List Node) : dropBlankList (a ++ b) = dropBlankList a ++ dropBlankList b := by
+  induction a with
+  | nil => rfl
+  | cons k a ih =>
+    cases k with
+    | text s => simp only [List.cons_append, dropBlankList, ih]; split <;> simp
+    | elem n as ks => simp [dropBlankList, ih]
+
+theorem dropBlankList_pending (p : Str) (X : List Node) :
+    dropBlankList ((if p.isEmpty then [] else [Node.text p]) ++ X) = flushText p ++ dropBlankList X := by
+  by_cases hp : p = []
+  · subst hp; simp [flushText, blank]
+  · have : p.isEmpty = false := by cases p <;> simp_all
+    simp only [this, Bool.false_eq_true, if_false, List.cons_append, List.nil_append, dropBlankList, flushText]
+    split <;> simp
+
+mutual
+  theorem view_eq (t : Node) : view t = dropBlank (normalize (legalize t)) := by
+    cases t with
+    | text s => simp [view, legalize, normalize, dropBlank]
+    | elem n as ks =>
+      rw [view_elem, legalize, normalize, dropBlank, viewKids_eq [] ks, mergeText_text_nil]
+  theorem viewKids_eq (p : Str) (ks : List Node) :
+      viewKids p ks = dropBlankList (mergeText (.text p :: normalizeList (legalizeList ks))) := by
+    cases ks with
+    | nil =>
+      simp only [viewKids, legalizeList, normalizeList, mergeText]
+      have := dropBlankList_pending p []
+      simpa [dropBlankList] using this.symm
+    | cons k ks =>
+      cases k with
+      | text s =>
+        simp only [viewKids, legalizeList, legalize, normalizeList, normalize]
+        rw [mergeText_text_text, viewKids_eq (p ++ s.filter legalChar) ks]
+      | elem n as ks' =>
+        simp only [viewKids]
+        rw [view_eq (.elem n as ks'), viewKids_eq [] ks, mergeText_text_nil]
+        simp only [legalizeList, normalizeList]
+        rw [mergeText_text]
+        have e : ∃ n' as' ks'', normalize (legalize (.elem n as ks')) = .elem n' as' ks'' := by
+          simp [legalize, normalize]
+        obtain ⟨n', as', ks'', he⟩ := e
+        rw [he, mergeText_elem]
+        have := dropBlankList_pending p (.elem n' as' ks'' :: mergeText (normalizeList (legalizeList ks)))
+        simp only [dropBlankList] at this
+        rw [← this]
+        by_cases hp : p.isEmpty = true <;> simp [hp]
+end
 /-! ### decidable equality of trees (for `decide`-checked examples) -/
 
 mutual
